@@ -74,6 +74,17 @@ PROPS = {
                 "distinct_nontrivial = distinct op lines with more than one element.",
         "explanation": "theorems: fixed-depth builder = normalize(union of cells) for every sequence and capacity; kway = left fold for every list length via associativity from Canon.ext",
     },
+    "C05": {
+        "trusted_base": COMMON_TB,
+        "assumptions": COMMON_ASSUME + [
+            "leading_zeros / trailing_zeros are modelled by Nat.log2 and a recursive trailing-zero count",
+            "whole-list statements about the cell view (covers the set, normal form), cell ranges, flat cells and the NUNIQ range iterators are tied by the correspondence only (partial)"],
+        "rule": "per (quantity,width): random dense/sparse cell sets over the whole-domain universe at Hpx depth 1 (48 cells: mixed depth-0/1 cells, full base cells) and "
+                "Time/Frequency depth 3 (16 cells), full and empty MOCs, boundary-biased random MOCs at all depths: cell view, cell-range view, flat cells, back to ranges, "
+                "round trips (cells, cell ranges, width through u64, NUNIQ ranges) against the identity; numbering schemes exhaustively for depths with <= 200 cells and "
+                "at first/last/middle/random indices for every depth up to MAX_DEPTH, for u16/u32/u64. distinct_nontrivial = distinct op lines with a non-empty MOC or a code.",
+        "explanation": "theorems: NUNIQ / z-uniq bijections and order for all depths, width round trip, one-step correctness of the greedy cell view; correspondence for the list-level views",
+    },
 }
 
 
